@@ -1488,7 +1488,7 @@ class Hypergraph:
             _H.remove_edges_from(_H.edges.singletons())
         if not isolates:
             _H.remove_nodes_from(_H.nodes.isolates())
-        if connected:
+        if connected and _H.num_nodes > 0:
             from ..algorithms import largest_connected_hypergraph
 
             largest_connected_hypergraph(_H, in_place=True)
